@@ -58,6 +58,12 @@ def build_groups(ctx: Ctx):
                 cases.append((p, "GET", rt.NOQ))
                 cases.append((p, rng.choice(["GET", "HEAD", "POST"]), rng.choice(rt.QUERIES[1:])))
             groups.append((rt.make_cfg(rules, rng.random() < 0.6, rng.random() < 0.7, rng.random() < 0.9, bind), False, cases))
+    # (d) doubled slashes that belong to the match: path-converter values containing `//`, literal `//` of rules
+    #     that opted out of merging (merge_slashes=False) in a merging map; requested with and without trailing slash
+    for rules, strict, merge, paths in rt.own_slash_groups(rng, q):
+        bind = rng.choice(rt.BINDS)
+        cases = [(p, "GET", rt.NOQ) for p in paths] + [(p, rng.choice(["GET", "HEAD"]), rng.choice(rt.QUERIES[1:])) for p in paths[:6]]
+        groups.append((rt.make_cfg(rules, strict, merge, True, bind), False, cases))
     # (b) random maps with defaults / alias pairs and per-rule overrides
     for _ in range(220 if q else 2500):
         rules = rt.c12_rules(rng, rng.randint(2, 6))
